@@ -25,7 +25,9 @@ def run_case(job):
     net = pp.create_empty_network("loop", fluid=D.fluid())
     tn = var.get("tn", 340.0)
     jF, jS, jR, jB = [pp.create_junction(net, 5.0, tn, index=i) for i in var.get("labels", [0, 1, 2, 3])]
-    M = sum(c["m"] for c in l["cons"])
+    Mtot = sum(c["m"] for c in l["cons"])
+    p2 = int(l.get("p2", 0))
+    M = Mtot - p2                 # flow through the main pump and the two pipes
     N = 800
 
     def alpha(fd):
@@ -33,6 +35,7 @@ def run_case(job):
         return 0.0 if f == 1.0 else -math.log(f) * CP * M / (math.pi * D.DSTAR * N * D.DSTAR)
     pkw = dict(length_km=N * D.DSTAR / 1000.0, inner_diameter_mm=D.DSTAR * 1000.0, k_mm=D.K_NIKURADSE * 1000.0, text_k=AMB[l["te"]])
     ts = AMB[l["te"]] + (360.0 - AMB[l["te"]]) * FAC[l["fs"]]            # inputs that depend on the supply temperature (treturn, qext of QE_TR)
+    ts = (M * ts + p2 * 345.0) / Mtot
     if l["pump"] == "pressure":
         pump = ("circ_pump_pressure", pp.create_circ_pump_const_pressure(net, jB, jF, p_flow_bar=6.0, plift_bar=2.0, t_flow_k=360.0,
                                                                         type=var.get("ptype", "pt")))
@@ -40,6 +43,9 @@ def run_case(job):
         pump = ("circ_pump_mass", pp.create_circ_pump_const_mass_flow(net, jB, jF, p_flow_bar=6.0, mdot_flow_kg_per_s=float(M),
                                                                     t_flow_k=360.0, type=var.get("ptype", "pt")))
     pp.create_pipe_from_parameters(net, jF, jS, u_w_per_m2k=alpha(l["fs"]), sections=var.get("sec", 2), **pkw)
+    pump2 = None
+    if p2:          # second producer: fixes only its feed temperature
+        pump2 = pp.create_circ_pump_const_mass_flow(net, jR, jS, p_flow_bar=None, mdot_flow_kg_per_s=float(p2), t_flow_k=345.0, type="t")
     cons = []
     for c in l["cons"]:
         m, dT = float(c["m"]), float(c["dT"])
@@ -62,7 +68,8 @@ def run_case(job):
         outcome = "PipeflowNotConverged"
     except Exception as e:  # noqa
         outcome = "raised:%s" % type(e).__name__
-    case = {"id": job["id"], "l": l, "variant": var, "mode": mode, "outcome": outcome, "cons": [], "pump": {}, "ts": [1, 0]}
+    case = {"id": job["id"], "l": l, "variant": var, "mode": mode, "outcome": outcome, "cons": [], "pump": {}, "ts": [1, 0],
+            "pump2": {"q": [1, 0], "tout": [1, 0]}}
     if outcome != "returned":
         return case
     for tbl, lab in cons:
@@ -75,6 +82,11 @@ def run_case(job):
     case["pump"] = {"q": to(r.qext_w, 1.0), "tret": to(r.t_from_k, 1e3), "tflow": to(net.res_junction.loc[jF, "t_k"], 1e3),
                     "m": to(r.mdot_from_kg_per_s, 1e6)}
     case["ts"] = to(net.res_junction.loc[jS, "t_k"], 1e3)
+    if pump2 is not None:
+        r2 = net.res_circ_pump_mass.loc[pump2]
+        case["pump2"] = {"q": to(r2.qext_w, 1.0), "tout": to(r2.t_outlet_k, 1e3)}
+    else:
+        case["pump2"] = {"q": [1, 0], "tout": [1, 0]}
     return case
 
 
@@ -113,10 +125,10 @@ def loops():
     return core.cached("loops" + sh, emit)
 
 
-def run(prop, clause_prefixes, nq=500):
+def run(prop, clause_prefixes, nq=500, V=None, evidence=True):
     t0 = time.time()
     tr, sd = core.tier(), core.seed()
-    V = core.Verdicts(prop)
+    V = V or core.Verdicts(prop)
     rnd = random.Random(sd)
     mc = tlc.run("GenLoop", workers=core.nworkers(), timeout=3000, check=True)
     ls = loops()
@@ -147,6 +159,9 @@ def run(prop, clause_prefixes, nq=500):
            "evaluations": len(cases), "distinct_nontrivial": sum(1 for c in cases if len(c["l"]["cons"]) >= 2),
            "rule": "all loops of GenLoop (1-2 consumers x 6 kinds x flows x drops x decay factors x ambient x pump kind), each in bidirectional and "
                    "sequential mode and with other start temperatures / labels / sections; non-trivial = two consumers"}
+    if not evidence:
+        return {"loop_runs": len(cases), "loop_runs_returned": ok, "loop_failing_clauses": dict(cc),
+                "loops_with_second_producer": sum(1 for c in cases if c["l"].get("p2"))}
     rc = V.finish()
     core.write_evidence(prop, "model_checking", cov, time.time() - t0, len(V.violations),
                         assumptions=["constant heat capacity 4000 J/kgK (designed fluid): the 'up to the heat-capacity discretisation' term of the pump balance is zero",
